@@ -559,6 +559,9 @@ func (g *Gen) Str(depth int) *E {
 		return &E{Op: "fn", S: "string", Kids: []*E{g.Any(d)}}
 	case 2:
 		n := r.Range(2, 4)
+		if r.Chance(1, 6) {
+			n = r.Range(5, 9) // size stratum: many arguments
+		}
 		c := &E{Op: "fn", S: "concat"}
 		for i := 0; i < n; i++ {
 			c.Kids = append(c.Kids, g.strArg(d))
@@ -630,7 +633,11 @@ func (g *Gen) Focus(fn string) *E {
 	case "matches":
 		return &E{Op: "fn", S: fn, Kids: []*E{a(), g.pattern(1)}}
 	case "concat":
-		return &E{Op: "fn", S: fn, Kids: []*E{a(), a(), a()}}
+		c := &E{Op: "fn", S: fn}
+		for n := r.Range(2, 7); n > 0; n-- {
+			c.Kids = append(c.Kids, a())
+		}
+		return c
 	case "substring":
 		return &E{Op: "fn", S: fn, Kids: []*E{a(), {Op: "num", F: float64(r.Range(0, 3))}, {Op: "num", F: float64(r.Range(0, 3))}}}
 	case "substring-before", "contains", "starts-with":
